@@ -57,7 +57,20 @@ def plan(tier, seed):
               alpha=bool(rng.random() < 0.4), tau=pick(rng, ["none", "none", "tau", "sigma",
                                                              "both", "sigma-arr"]),
               rho=pick(rng, [1, 1, 0.3, 3.0]), x0=bool(rng.random() < 0.4),
-              acc=bool(rng.random() < 0.7))
+              acc=bool(rng.random() < 0.7), ascale=pick(rng, [1, 1, 1, 1e-8, 1e-4, 1e4]))
+    # operator-scale sweep on pure least squares (every solver, with and without lamda / z):
+    # eigenvalues of A^H A from 1e-16 to 1e+8
+    rng = P.rng("lls-scale")
+    for i in range(40 if quick else 600):
+        P.add("lls-scale", n=int(rng.integers(2, 8)), A=pick(rng, ["tall", "square", "diag"]),
+              cplx=bool(rng.random() < 0.5), lam=pick(rng, [0.0, 0.0, "pos"]),
+              z=bool(rng.random() < 0.5), proxg="none", G="none",
+              solver=pick(rng, [None, "ConjugateGradient", "ConjugateGradient"] + SOLVERS),
+              P=bool(rng.random() < 0.3),
+              alpha=bool(rng.random() < 0.4), tau=pick(rng, ["none", "none", "tau", "sigma",
+                                                             "both", "sigma-arr"]),
+              rho=pick(rng, [1, 1, 0.3, 3.0]), x0=bool(rng.random() < 0.4),
+              acc=bool(rng.random() < 0.7), ascale=pick(rng, [1e-8, 1e-6, 1e-4, 1e4]))
     return P.cases
 
 
@@ -80,12 +93,18 @@ def run_case(case):
     L = sp.linop
     # ---- forward operator
     kindA = case["A"]
+    # operator scale (pure least squares only): min 1/2||s A x - y||^2 + lamda s^2/2 ||x - z/s||^2
+    # has the same optimal value as the unscaled problem and the minimiser x/s
+    asc = float(case.get("ascale", 1.0))
+    if not (case["proxg"] == "none" and case["G"] == "none" and kindA in ("tall", "square",
+                                                                          "diag")):
+        asc = 1.0
     if kindA in ("tall", "square"):
         m = n + (int(rng.integers(1, 4)) if kindA == "tall" else 0)
         U, _ = np.linalg.qr(crandn(rng, [m, m], dt))
         V, _ = np.linalg.qr(crandn(rng, [n, n], dt))
         sv = np.geomspace(1.0, 0.2, n)
-        M = (U[:, :n] * sv) @ V.conj().T * float(10 ** rng.uniform(-0.3, 0.3))
+        M = (U[:, :n] * sv) @ V.conj().T * float(10 ** rng.uniform(-0.3, 0.3)) * asc
         xshape = [n, 1]
         A = L.MatMul(xshape, M)
     elif kindA == "identity":
@@ -94,7 +113,7 @@ def run_case(case):
     elif kindA == "diag":
         xshape = [n]
         A = L.Multiply(xshape, (0.3 + rng.random(n)).astype(dt) * (
-            np.exp(1j * rng.random(n)) if cplx else 1))
+            np.exp(1j * rng.random(n)) if cplx else 1) * asc)
     elif kindA == "fft":
         xshape = [n]
         A = L.FFT(xshape)                 # A.N is the Identity shortcut
@@ -110,8 +129,8 @@ def run_case(case):
         Am = Am.real
     yshape = list(A.oshape)
     y = crandn(rng, yshape, dt)
-    lam = 0.0 if case["lam"] == 0.0 else float(10 ** rng.uniform(-1.5, 0))
-    z = crandn(rng, xshape, dt) if case["z"] else None
+    lam = 0.0 if case["lam"] == 0.0 else float(10 ** rng.uniform(-1.5, 0)) * asc * asc
+    z = crandn(rng, xshape, dt) / asc if case["z"] else None
     # ---- G
     kindG = case["G"]
     G = None
@@ -208,7 +227,7 @@ def run_case(case):
             if G is not None:
                 kw["sigma"] = sa      # Vstack with axis=None flattens the dual variable
     if eff == "ADMM":
-        kw["rho"] = case["rho"]
+        kw["rho"] = case["rho"] * asc * asc     # the penalty scales with the operator
     x0 = None
     if case["x0"]:
         x0 = crandn(rng, xshape, dt)
